@@ -136,6 +136,23 @@ def spell_match(m):
     raise ValueError(k)
 
 
+def regex_nullable(r):
+    k = r['k']
+    if k in ('ch', 'cc', 'any', 'set'):
+        return False
+    if k == 'seq':
+        return all(regex_nullable(x) for x in r['c'])
+    if k == 'alt':
+        return any(regex_nullable(x) for x in r['c'])
+    if k in ('star', 'opt'):
+        return True
+    if k == 'plus':
+        return regex_nullable(r['c'])
+    if k in ('rep', 'range', 'atleast'):
+        return r['n'] == 0 or regex_nullable(r['c'])
+    return False
+
+
 # C-like precedence levels of the nmfu grammar (higher binds tighter)
 PREC = {'||': 1, '&&': 2, '|': 3, '^': 4, '&': 5, '==': 6, '!=': 6, '<': 6, '>': 6, '<=': 6, '>=': 6,
         '<<': 7, '>>': 7, '+': 8, '-': 8, '*': 9, '/': 9, '%': 9}
@@ -568,7 +585,10 @@ class Gen:
         if k < 0.33 and self.strs:
             return {'t': 'append', 'var': r.choice(self.strs)['name'], 'm': self.match()}
         if k < 0.36 and 'wait' in f:
-            return {'t': 'wait', 'm': self.match(simple=r.random() < 0.7)}
+            m = self.match(simple=r.random() < 0.7)
+            if m['k'] == 're' and regex_nullable(m['r']):
+                m = {'k': 'str', 'bytes': self.lit()}        # waiting for the empty string is meaningless
+            return {'t': 'wait', 'm': m}
         if depth >= self.maxdepth:
             return {'t': 'match', 'm': self.match()}
         if k < 0.45 and 'case' in f:
@@ -678,7 +698,28 @@ class Gen:
             h = [{'t': 'wait', 'm': {'k': 'str', 'bytes': [r.choice(A)]}}] if r.random() < 0.5 else [{'t': 'delete', 'var': sv}, {'t': 'match', 'm': {'k': 'str', 'bytes': self.lit(1)}}]
             return [{'t': 'try', 'b': [{'t': 'append', 'var': sv, 'm': {'k': 're', 'r': {'k': 'plus', 'c': {'k': 'set', 'inv': False, 'items': [['ch', b] for b in r.sample(A, 3)]}}, 'bin': False}},
                                        {'t': 'match', 'm': {'k': 'str', 'bytes': [r.choice(A)]}}], 'handles': ['outofspace'], 'h': h}]
-        for f in (accumulate, accumulate, brackets, number, capture):
+        def records():
+            # loop { [optional { "#"; ... }] wait <delimiter>; count / hook }   (line- or record-oriented parsers)
+            delim = [r.choice(A)] if r.random() < 0.5 else self.lit(2)
+            body = []
+            if r.random() < 0.4:
+                cm = r.choice([b for b in A if b not in delim] or A)
+                body.append({'t': 'opt', 'b': [{'t': 'match', 'm': {'k': 'str', 'bytes': [cm]}}] + ([{'t': 'hook', 'n': r.choice(self.hooks)}] if self.hooks else [])})
+            if r.random() < 0.7:
+                body.append({'t': 'wait', 'm': {'k': 'str', 'bytes': delim}})
+            else:
+                body.append({'t': 'match', 'm': {'k': 're', 'r': {'k': 'seq', 'c': [{'k': 'star', 'c': {'k': 'set', 'inv': True, 'items': [['ch', delim[0]]]}}, {'k': 'ch', 'c': delim[0]}]}, 'bin': False}})
+            if ints:
+                n = ints[0]['name']
+                body.append({'t': 'set', 'var': n, 'e': {'k': 'bin', 'op': '+', 'l': {'k': 'var', 'name': n}, 'r': {'k': 'num', 'v': 1}}})
+            if self.hooks:
+                body.append({'t': 'hook', 'n': r.choice(self.hooks)})
+            if in_loop is False and r.random() < 0.5 and ints:
+                body.append({'t': 'if', 'br': [{'c': {'k': 'bin', 'op': '>=', 'l': {'k': 'var', 'name': ints[0]['name']}, 'r': {'k': 'num', 'v': r.choice([2, 3])}},
+                                                'b': [{'t': 'break', 'loop': None}]}], 'els': None})
+                return [{'t': 'loop', 'name': None, 'b': body}, {'t': 'match', 'm': {'k': 'str', 'bytes': self.lit(1)}}]
+            return [{'t': 'loop', 'name': None, 'b': body}]
+        for f in (accumulate, accumulate, brackets, number, capture, records, records):
             cands.append(f)
         res = r.choice(cands)()
         return res
